@@ -125,7 +125,8 @@ def run_unit(root, module, prop, tier, seed, rebaseline=False):
             pass
     attempts = [r]
     # retry policy: rlimit / flaky -> one retry with larger rlimit and a different seed
-    if r["status"] == "verification-failed" and (any(e.get("kind") == "rlimit" for e in r["errors"]) or (base and not changed)):
+    real_fail = any((not f["success"]) and not f["function"].endswith(CANARY) for f in r.get("functions", []))
+    if r["status"] == "verification-failed" and real_fail and (any(e.get("kind") == "rlimit" for e in r["errors"]) or (base and not changed)):
         r2 = verus.run(path, unit.verus_args, timeout=900, rlimit=40, seed=seed + 17)
         attempts.append(r2)
         if r2["status"] == "ok" or not (base and not changed):
